@@ -10,6 +10,8 @@
   its value") are parts of `Normal`; `NumCanonOK N` is the only hypothesis about the number↔text function.
 -/
 import GojaModel.C19.Normalize
+import GojaModel.C19.AllowList
+import GojaModel.C19.Reviver
 
 namespace GojaModel.C19
 
@@ -120,6 +122,39 @@ theorem stringify_parse_canonical (N : NumCanon) (hN : NumCanonOK N) (t : Str) (
 theorem stringify_parse_canonical_id (t : Str) (v : JVal) (ht : WfStr t) (h : parse NumCanon.id t = some v) :
     parse NumCanon.id (stringify [] v) = some v :=
   (stringify_parse_canonical NumCanon.id numCanonOK_id t v ht h [] (fun c hc => by cases hc)).1
+
+/-- replacer allow-list (ECMA-262 §25.5.2 step 4.b + SerializeJSONObject step 5.a): stringify with the list is plain
+    stringify of the value restricted, at every object level, to the listed keys in list order — ∀ values, lists, gaps. -/
+theorem allowlist_is_projection (items : List Str) (gap : Str) (v : JVal) :
+    stringifyPL items gap v = stringify gap (project (propList items) v) :=
+  serP_eq_project (propList items) gap v []
+
+/-- the PropertyList holds each listed item exactly once -/
+theorem propList_spec (items : List Str) : (propList items).Nodup ∧ ∀ k, k ∈ propList items ↔ k ∈ items := by
+  simpa [propList] using propList_aux items [] (by simp)
+
+/-- and it parses back to that projection -/
+theorem allowlist_roundtrip (items : List Str) (gap : Str) (hg : AllWs gap) (v : JVal)
+    (hv : WfVal (project (propList items) v)) :
+    parseRaw (stringifyPL items gap v) = some (project (propList items) v) := by
+  rw [allowlist_is_projection]
+  exact parseRaw_stringify gap hg _ hv
+
+/-- reviver walk (InternalizeJSONProperty): the identity reviver returns the parsed value unchanged … -/
+theorem reviver_identity (k : Str) (v : JVal) : revive (fun _ x => some x) k v = some (emb v) :=
+  revive_id_aux k v
+
+/-- … a reviver is called exactly once per property, children before their holder (post-order), array elements by
+    ascending index, members in key order, the root under the key "" last: the logging identity reviver produces
+    exactly `calls k v`, for every value (unbounded nesting) and every initial log -/
+theorem reviver_call_order (k : Str) (v : JVal) (log : List Str) :
+    reviveS logId k v log = (log ++ calls k v, some (emb v)) :=
+  reviveS_logId k v log
+
+/-- … and the walk for a pure reviver is the stateful walk with a trivial state -/
+theorem reviver_pure_is_stateless (R : Reviver) (k : Str) (v : JVal) :
+    reviveS (σ := Unit) (fun _ k x => ((), R k x)) k v () = ((), revive R k v) :=
+  reviveS_pure R k v
 
 /-- duplicate keys: the last value wins at the position of the first occurrence; "__proto__" is a key like any other -/
 theorem upsert_existing (k : Str) (v v' : JVal) (pre post : List (Str × JVal)) (h : k ∉ keys pre) :
